@@ -43,6 +43,9 @@ type pairJob struct {
 }
 
 func allPairs() []pairJob {
+	// groups whose loops are really started are by far the most expensive: they go last, so that a
+	// deadline cuts those and not the cheap component groups
+	sort.SliceStable(groups, func(i, j int) bool { return groups[i].Started == nil && groups[j].Started != nil })
 	var out []pairJob
 	for gi := range groups {
 		g := &groups[gi]
